@@ -7,6 +7,7 @@ stylesheets  S1 plain                                   S2 nested scopes, xsl:me
              S5 top-level variable (result-tree fragment, lazily evaluated, referenced through a second top-level
                 variable) whose evaluation is aborted by xsl:message terminate when $p = 'stop'
              S6 top-level variable whose select uses $p as a node-set: run-time XPath error whenever p is set
+             S7 sorts whose key evaluation fails part-way ($p = 'stop': the text-keyed sort, $p = 2: the number-keyed one)
              SD1 / SD2 value-keyed caches that outlive a call (the transformer's ICU number formatter caches DecimalFormat
                 objects by the VALUE of the decimal-format symbols, its collation functor caches collators by locale):
                 named decimal-formats d0..d9 where SD2's dK differs from SD1's dK in exactly the K-th symbol, and a
@@ -193,6 +194,24 @@ def _decimal_format_sheet(which, collation):
 SD1 = _decimal_format_sheet(0, 'lang="en" case-order="upper-first"')
 SD2 = _decimal_format_sheet(1, 'lang="en" case-order="lower-first"')
 
+# S7: the failure happens INSIDE the evaluation of a sort key, after the keys of some nodes have been computed (the node sorter keeps
+# per-position key caches for the duration of one sort): with $p = 'stop' the text-keyed sort fails at the item with n = 2 / n = 5, with
+# $p = 2 the number-keyed one does.  The keys reverse the order of @n, so key values left over from another run are visible.
+S7 = """<?xml version="1.0"?>
+<xsl:stylesheet version="1.0" %s>
+<xsl:output method="text"/>
+<xsl:param name="p" select="'go'"/>
+<xsl:template match="/">
+<xsl:for-each select="doc/item"><xsl:sort select="concat(9 - @n, function-available(concat(substring('zz:', 1, 3 * number((@n = 2 or @n = 5) and $p = 'stop')), 'f')))"/><xsl:value-of select="@n"/>,</xsl:for-each>
+<xsl:text>|</xsl:text>
+<xsl:for-each select="doc/item"><xsl:sort data-type="number" select="(10 - @n) + number(function-available(concat(substring('zz:', 1, 3 * number((@n = 2 or @n = 5) and $p = 2)), 'f')))"/><xsl:value-of select="."/>,</xsl:for-each>
+<xsl:text>|</xsl:text>
+<xsl:apply-templates select="doc/item"><xsl:sort select="."/></xsl:apply-templates>
+</xsl:template>
+<xsl:template match="item">[<xsl:value-of select="position()"/>:<xsl:value-of select="@n"/>]</xsl:template>
+</xsl:stylesheet>
+""" % XSL
+
 SE = """<?xml version="1.0"?>
 <xsl:stylesheet version="1.0" %s>
 <xsl:output method="xml" encoding="x-no-such-encoding"/>
@@ -237,7 +256,7 @@ DX = """<?xml version="1.0"?>
 """
 
 POOL = {
-    "ss": {"S1": S1, "S2": S2, "S3": S3, "S4": S4, "S5": S5, "S6": S6, "SD1": SD1, "SD2": SD2, "SE": SE, "SU": SU, "SM": SM, "SX": SX, "SV": SV},
+    "ss": {"S1": S1, "S2": S2, "S3": S3, "S4": S4, "S5": S5, "S6": S6, "S7": S7, "SD1": SD1, "SD2": SD2, "SE": SE, "SU": SU, "SM": SM, "SX": SX, "SV": SV},
     "src": {"D1": D1, "D2": D2, "DX": DX},
     "vals": {"str": {"form": "expr", "text": "'stop'"},
              "num": {"form": "num", "num": 2},
